@@ -274,6 +274,10 @@ func (fr *Frame) doCall(in ssa.Instruction, com *ssa.CallCommon, st *State, isGo
 				fr.safetyOb("nil-func", "", not(eq(fv.T[0], Term{"nil_fn", SFn})), pos, "call of nil function value")
 			}
 		}
+	} else if _, isTP := com.Value.Type().(*types.TypeParam); isTP {
+		// a method call on a value of type-parameter type: the instances used in this repository are
+		// concrete (non-interface) types, for which the call cannot hit a nil interface
+		c.assumeNote("method calls on values of type-parameter type are assumed to have non-interface instances")
 	} else if !fr.assumedNonNilOrigin(com.Value) || fr.nullableField(com.Value) {
 		fr.safetyOb("nil-invoke", com.Method.Name(), not(eq(ifTag(ca.terms[0]), Term{"0", SInt})), pos, "method call on nil interface value")
 	} else {
@@ -305,6 +309,7 @@ func (fr *Frame) doCall(in ssa.Instruction, com *ssa.CallCommon, st *State, isGo
 			cl.matched = true
 			ec := fr.evalCtx(st, fr.entry, pos)
 			ec.thisCall = ev
+			ec.rangeIx = fr.currentRangeIx()
 			t, err := ec.evalClause(cl.Expr)
 			if err != nil {
 				c.stale = append(c.stale, fmt.Sprintf("%s:%d: %v", cl.File, cl.Line, err))
